@@ -13,7 +13,7 @@ RULE = ('files rendered from abstract records: 1-4 records, header fields with c
         'location expressions over n | a..b | <a..b | a..>b | a.b | a^b | complement | join | order to depth 4 wrapped over lines at '
         'commas and at arbitrary positions (pieces of any sizes), repeated qualifier keys, repeated header fields and sub-fields of any field, records without ORIGIN, features on both strands (error class), qualifiers quoted (also containing "=", multi-line), numeric, unquoted words and flags; ORIGIN in 6x10 '
         'blocks; every case is read with read, iter_ and read_fts under a random exclude tuple; 8% of the cases are mutated raw '
-        'texts (outside the theorems, compared exactly: same value or both raise); non-trivial = in-domain case with a compound or partial '
+        'texts (outside the theorems, compared exactly: same value or both raise); plus two raw streams compared exactly: layout variants the reader accepts (CRLF line ends, trailing blanks, indented or padded // terminator, blank lines anywhere, header continuation lines indented by 10-14 blanks, sub-fields indented by 1-4 blanks) and records whose FEATURES line is missing or spelled in lower case with the feature lines kept or dropped; non-trivial = in-domain case with a compound or partial '
         'location, a wrapped location, a multi-line qualifier, a flag, several records or a non-empty exclude; plus a history stream '
         '(about 300 histories in the quick tier): several read / iter_ / read_fts calls in one process on the same and on colliding files - the '
         'same location text bare and inside complement()/join() in both orders, the same file under different exclude tuples in both '
@@ -1145,8 +1145,38 @@ def gen_nofeatures(rng, tier):
     return cases
 
 
+def gen_layout(rng, tier):
+    """layout variants of rendered files that the reader accepts (raw texts, outside the theorems, compared exactly with the model):
+    CRLF line ends, trailing blanks, an indented or blank-padded '//' terminator, blank lines anywhere, header continuation lines
+    indented by 10-14 blanks instead of 12 (fewer than 12: a sub-field line), sub-fields indented by 3 (PUBMED style) or 1-4 blanks"""
+    cases = []
+    for i in range(480 if tier == 'thorough' else 48):
+        recs = [g_rec(rng, j) for j in range(rng.choice([1, 1, 2]))]
+        for r in recs:
+            r['fts'] = r['fts'][:3]
+        lines = render_gb(recs).split('\n')[:-1]
+        kind = i % 6
+        out = []
+        for l in lines:
+            if kind == 0:
+                l = l + '\r'
+            elif kind == 1 and rng.random() < 0.4:
+                l = l + rng.choice([' ', '   ', '\t', ' \r'])
+            elif kind == 2 and l == '//':
+                l = rng.choice([' //', '  //  ', '//   ', '\t//', '            //'])
+            elif kind == 3 and rng.random() < 0.25:
+                out.append(rng.choice(['', '   ', ' ' * 21, '\t']))
+            elif kind == 4 and l.startswith(' ' * 12) and not l.startswith(' ' * 13):
+                l = ' ' * rng.choice([10, 11, 12, 13, 14]) + l[12:]
+            elif kind == 5 and l.startswith('  ') and not l.startswith('   '):
+                l = ' ' * rng.choice([1, 2, 3, 3, 4]) + l[2:]
+            out.append(l)
+        cases.append({'excl': g_excl(rng), 'raw': '\n'.join(out) + ('\r\n' if kind == 0 else '\n')})
+    return cases
+
+
 def gen_cases(rng, tier):
-    return gen_nofeatures(rng, tier) + gen_histories(rng, tier) + gen_probe_words(rng, tier) + gen_transports(rng, tier) + _single['gen_cases'](rng, tier)
+    return gen_layout(rng, tier) + gen_nofeatures(rng, tier) + gen_histories(rng, tier) + gen_probe_words(rng, tier) + gen_transports(rng, tier) + _single['gen_cases'](rng, tier)
 
 
 LEVEL_TEXT = ('Machine-checked Coq theorems about the Gallina model of sugar/_io/genbank.py (with Location/LocationTuple/Feature construction). '
@@ -1198,7 +1228,8 @@ LEVEL_NOTE = ('All 21 theorems are closed under the global context. Proved for a
               'dropped and the ORIGIN line and every residue line become header entries (origin -> nested sub-fields), exactly as the view says '
               '(suspicious behaviour, reported; real GenBank records always have FEATURES). Remaining restrictions: feature keys of at most 15 characters not starting with "origin", keys named like mapping methods '
               'excluded (F20). Mutated raw files (8% of the random stream) are outside every theorem but are compared EXACTLY with the model since '
-              'round 7 (same value, or both raise), because the model follows the reader line by line on any Latin-1 text. '
+              'round 7 (same value, or both raise), because the model follows the reader line by line on any Latin-1 text; so are the layout stream (CRLF, '
+              'trailing blanks, indented terminator, blank lines, re-indented header lines) and the missing-FEATURES stream. '
               'The defect exclude_fts found by this check is fixed in /repo (da56cff) and in the domain. '
               'Statement coverage of the modelled functions in the quick tier: genbank.py _split_toplevel/_parse_locs/_parse_single_loc/'
               'read_fts_genbank 100%, iter_genbank 124/125 (line 236 "assert False" is unreachable: parse is always one of three states); '
